@@ -63,16 +63,33 @@ void verif_native_assert(int c, const char* msg) {
 void __CPROVER_assume(int c) { verif_native_assume(c); }
 void __CPROVER_assert(int c, const char* m) { verif_native_assert(c, m); }
 #endif
+#ifdef VERIF_MULTI
+/* several harness entries in one binary: argv[1] names the entry, the remaining arguments are as in the single-entry build */
+struct verif_entry { const char* name; void (*fn)(void); };
+extern struct verif_entry verif_entries[];
+#else
 void VERIF_ENTRY(void);
+#endif
 int main(int argc, char** argv) {
+#ifdef VERIF_MULTI
+  if (argc < 2) { fprintf(stderr, "usage: %s <entry> [--seed N | tape]\n", argv[0]); return 3; }
+  void (*entry_fn)(void) = 0;
+  for (struct verif_entry* e = verif_entries; e->name; e++) if (!strcmp(e->name, argv[1])) entry_fn = e->fn;
+  if (!entry_fn) { fprintf(stderr, "unknown entry %s\n", argv[1]); return 3; }
+  argc--; argv++;
+#endif
   if (argc >= 3 && !strcmp(argv[1], "--seed")) { random_mode = 1; rng = strtoull(argv[2], 0, 10) * 0x2545F4914F6CDD1DULL + 1; }
   else if (argc >= 2) {
     FILE* f = fopen(argv[1], "r"); if (!f) { perror("tape"); return 3; }
-    size_t cap = 1024; tape = malloc(cap * sizeof *tape); char line[16384]; /* the JSON header line of a tape can be long (failing assertion texts) */
+    size_t cap = 1024; tape = malloc(cap * sizeof *tape); static char line[16384];
     while (fgets(line, sizeof line, f)) { if (line[0] == '#' || line[0] == '\n') continue; if (tape_len == cap) { cap *= 2; tape = realloc(tape, cap * sizeof *tape); } tape[tape_len++] = strtoull(line, 0, 0); }
     fclose(f);
   }
+#ifdef VERIF_MULTI
+  entry_fn();
+#else
   VERIF_ENTRY();
+#endif
   printf("OBS %016llx\n", (unsigned long long)obs);
   return 0;
 }
@@ -85,7 +102,7 @@ uint8_t nondet_bool(void) { return (uint8_t)verif_in(1); }
 /* 0 under CBMC, 1 in the native builds: lets a contract stub draw its result nondeterministically (+assume) for the solver
  * and compute it deterministically for native replay / differential runs (the contract must determine the result uniquely). */
 #ifdef __CPROVER__
-int verif_native(void) { return 0; }
+uint32_t verif_native(void) { return 0; }
 #else
-int verif_native(void) { return 1; }
+uint32_t verif_native(void) { return 1; }
 #endif
